@@ -23,7 +23,9 @@ var bareNames = []string{"a", "b", "c", "d", "e", "f", "g", "x1", "y_2", "Name",
 	// bytes >= 0x80 are identifier characters to SQLite whatever Unicode calls them (spaces, digits, symbols)
 	"a\u00a0b", "x\u0085", "\u3000z", "w\u2003w", "smile😀", "n٣", "٣n", "p·q", "€",
 	// names that differ from another one of this list only in the case of a non-ASCII letter: different names to SQLite
-	"É", "Ж", "ωmega", "NAÏVE", "\u212a", "k", "ſ", "s"}
+	"É", "Ж", "ωmega", "NAÏVE", "\u212a", "k", "ſ", "s",
+	// the ends of the ranges: the last letters of the alphabet, the first code point above ASCII
+	"z", "Z_z", "\u0080q"}
 var quotedNames = []string{"select", "my col", "a\"b", "from", "a]b", "x`y", "tab,le", "1st", "é é", "primary", "key", "(", "a'b", "", "x.y", "--c", "q\"", "tick`", "\"\"", "end]x", "it's", "*", "*", "*"}
 
 func quote(name string, style int) string {
